@@ -117,7 +117,7 @@ def _gen_stream(r, nonfinite=False):
     ndesc = r.choice([1, 1, 2, 3])
     descs = []
     for _ in range(ndesc):
-        descs.append(V.gen_descspec(r, nfields=r.choice([1, 2, 3, 5, 8]), types=SCALARS, name=r.choice(V.TNAMES[:4])))
+        descs.append(V.gen_descspec(r, nfields=r.choice([0, 1, 2, 3, 5, 8]), types=SCALARS, name=r.choice(V.TNAMES[:4])))
     recs = [_gen_record(r, r.choice(descs), nonfinite) for _ in range(r.choice([1, 1, 2, 3, 6]))]
     return recs
 
@@ -419,6 +419,9 @@ def run_real(case):
             docs, spans = split_documents(text)
             obs["docs"] = [canon_json(x) for x in docs]
             obs["doc_multiline"] = ["\n" in text[a:b] for a, b in spans]
+            # leading blanks of the second line of every multi-line document (the indentation that was applied)
+            obs["doc_indent"] = [(lambda ls_: len(ls_[1]) - len(ls_[1].lstrip(" ")) if len(ls_) > 1 else None)(text[a:b].split("\n"))
+                                 for a, b in spans]
             strict = []
             for a, b in spans:
                 try:
@@ -532,6 +535,14 @@ def oracle(case, obs):
             return f"not one JSON document per line: {obs['n_lines']} lines, {len(docs)} documents"
         if any(obs["doc_multiline"]):
             return "a document spans several lines although no indent was requested"
+    else:
+        # indentation was requested: every document (a non-empty JSON object) is laid out over several lines, its members
+        # indented by the requested number of blanks
+        for i, (ml, ind) in enumerate(zip(obs["doc_multiline"], obs.get("doc_indent", []))):
+            if not ml:
+                return f"indent={case['indent']} was requested but document {i} is written on one line"
+            if ind != case["indent"]:
+                return f"indent={case['indent']} was requested but the members of document {i} are indented by {ind} blanks"
     # documents: descriptor documents (iff enabled) and record documents, in order
     rec_docs = []
     announced = []
